@@ -115,9 +115,6 @@ func Run(p *Prog, maxSteps int) (res *RunResult) {
 		case SETFIELD:
 			name := p.Consts[in.A].(string)
 			cur := blocks[len(blocks)-1]
-			if name == "TYPE" || name == "NAME" {
-				res.Unspecified = "assignment to TYPE/NAME"
-			}
 			if old, ok := cur.Fields[name]; ok {
 				if _, isB := old.(*ref.Block); isB {
 					res.Unspecified = "field assigned under the key of a closed child"
